@@ -412,6 +412,23 @@ func lookalike(n *Node, r *Rng) (*Node, bool) {
 	changed := false
 	var walk func(x *Node)
 	walk = func(x *Node) {
+		if x.K == KIf || x.K == KOp && (builtinNames[x.Name] == "and" || builtinNames[x.Name] == "or") {
+			// direct operands of and/or and the parts of an `if` stay what they
+			// are (an `if` may itself be an and/or operand); what is below them
+			// may change
+			for _, a := range x.Args {
+				if a.K == KOp || a.K == KIf {
+					walk(a)
+				}
+			}
+			return
+		}
+		if x.K == KVar && r.P(0.3) {
+			// a variable and the string that spells its name
+			*x = *Lit(VS(x.Name))
+			changed = true
+			return
+		}
 		if x.K == KLit && x.Val != nil && r.P(0.5) {
 			switch x.Val.T {
 			case "i":
@@ -593,6 +610,12 @@ func (g *Gen) boolExpr(d int) *Node {
 	if len(g.pool) > 0 && r.P(0.08) {
 		c := g.pool[r.Intn(len(g.pool))].Clone()
 		g.left -= c.Size()
+		if g.K.PIll > 0 && r.P(0.4) {
+			// not a repetition, only a look-alike: (= env dev) / (= env "dev")
+			if tw, ok := lookalike(c, r); ok {
+				return tw
+			}
+		}
 		return c
 	}
 	n := g.boolExpr1(d)
